@@ -6,6 +6,7 @@ import (
 	"encoding/base64"
 	"encoding/binary"
 	"encoding/json"
+	"errors"
 	"fmt"
 	"math/rand"
 	"net/http"
@@ -16,6 +17,7 @@ import (
 	"sort"
 	"strconv"
 	"strings"
+	"sync"
 	"time"
 
 	"storj.io/drpc"
@@ -602,12 +604,50 @@ type hCase struct {
 	jsonEnc bool
 	wires   [][]byte // marshalled form of every response message
 	reqWire []byte
+	path    string
 }
 
 // hExec concretises the case, serves it with the real gateway and lifts the response.
 func hExec(r *httpRec, rng *rand.Rand) (*hCase, *hGot) {
+	hc, g, h, req := hPrepare(r, rng, hPath)
+	if g.harness != "" {
+		return hc, g
+	}
+	rec := httptest.NewRecorder()
+	gw := drpchttp.New(h)
+
+	var m0, m1 runtime.MemStats
+	if r.Want.Allocmax > 0 {
+		runtime.ReadMemStats(&m0)
+	}
+	g.panicFn, g.panicTx = hGuard(func() { gw.ServeHTTP(rec, req) })
+	if r.Want.Allocmax > 0 {
+		runtime.ReadMemStats(&m1)
+		g.alloc = m1.TotalAlloc - m0.TotalAlloc
+	}
+	hCollect(r, g, h, rec.Code, rec.Header(), rec.Body.Bytes())
+	return hc, g
+}
+
+// hCollect fills in what the handler saw and what the client got.
+func hCollect(r *httpRec, g *hGot, h *hHandler, status int, hdr http.Header, body []byte) {
+	g.called, g.rpc, g.md, g.recv = h.called, h.rpc, h.md, h.recv
+	if g.panicTx != "" {
+		return
+	}
+	if h.outcome != nil {
+		_, g.numPanic = hGuard(func() { g.numcode = drpcerr.Code(h.outcome) })
+	}
+	g.status = status
+	g.ctype = hdr.Get("Content-Type")
+	g.body = body
+	hLift(r, g)
+}
+
+// hPrepare concretises a case: the scripted handler and the HTTP request.
+func hPrepare(r *httpRec, rng *rand.Rand, path string) (*hCase, *hGot, *hHandler, *http.Request) {
 	g := &hGot{}
-	hc := &hCase{r: r}
+	hc := &hCase{r: r, path: path}
 	P := r.P
 	// encoding: the fallback JSON form cannot realise every length
 	hc.jsonEnc = true
@@ -639,13 +679,13 @@ func hExec(r *httpRec, rng *rand.Rand) (*hCase, *hGot) {
 	m, w, why := hMakeMsg(P.JSON, hc.jsonEnc, payloadLen, 0)
 	if why != "" {
 		g.harness = "request: " + why
-		return hc, g
+		return hc, g, nil, nil
 	}
 	h.reqMsg, hc.reqWire = m, w
 	if P.Fam == "twirp" {
 		if r.Req.Defect != "none" {
 			g.harness = "twirp request with a framing defect"
-			return hc, g
+			return hc, g, nil, nil
 		}
 		body = w
 	} else {
@@ -668,7 +708,7 @@ func hExec(r *httpRec, rng *rand.Rand) (*hCase, *hGot) {
 			body = []byte("!!!not*base64!!!")
 		default:
 			g.harness = "unknown request defect " + r.Req.Defect
-			return hc, g
+			return hc, g, nil, nil
 		}
 		if P.B64 && r.Req.Defect != "b64junk" {
 			body = []byte(base64.StdEncoding.EncodeToString(body))
@@ -680,7 +720,7 @@ func hExec(r *httpRec, rng *rand.Rand) (*hCase, *hGot) {
 		m, w, why := hMakeMsg(P.JSON, hc.jsonEnc, s, i+1)
 		if why != "" {
 			g.harness = "response: " + why
-			return hc, g
+			return hc, g, nil, nil
 		}
 		h.msgs = append(h.msgs, m)
 		hc.wires = append(hc.wires, w)
@@ -689,47 +729,24 @@ func hExec(r *httpRec, rng *rand.Rand) (*hCase, *hGot) {
 	for _, t := range r.Want.Resp.Trailers {
 		if t.V.S != nil && (strings.ContainsAny(*t.V.S, "\r\n") || strings.Trim(*t.V.S, " \t") != *t.V.S) {
 			g.harness = "clean-vocabulary text with CR/LF or outer blanks: " + strconv.Quote(*t.V.S)
-			return hc, g
+			return hc, g, nil, nil
 		}
 	}
 	outcome, why := hBuildErr(&r.Out)
 	if why != "" {
 		g.harness = "error value: " + why
-		return hc, g
+		return hc, g, nil, nil
 	}
 	h.outcome = outcome
 
-	req := httptest.NewRequest(http.MethodPost, "http://gateway.test"+hPath, bytes.NewReader(body))
+	req := httptest.NewRequest(http.MethodPost, "http://gateway.test"+path, bytes.NewReader(body))
 	if r.Ct != "" {
 		req.Header.Set("Content-Type", r.Ct)
 	}
 	for _, e := range r.Hdrs {
 		req.Header["X-Drpc-Metadata"] = append(req.Header["X-Drpc-Metadata"], strings.Join(e, ""))
 	}
-	rec := httptest.NewRecorder()
-	gw := drpchttp.New(h)
-
-	var m0, m1 runtime.MemStats
-	if r.Want.Allocmax > 0 {
-		runtime.ReadMemStats(&m0)
-	}
-	g.panicFn, g.panicTx = hGuard(func() { gw.ServeHTTP(rec, req) })
-	if r.Want.Allocmax > 0 {
-		runtime.ReadMemStats(&m1)
-		g.alloc = m1.TotalAlloc - m0.TotalAlloc
-	}
-	g.called, g.rpc, g.md, g.recv = h.called, h.rpc, h.md, h.recv
-	if g.panicTx != "" {
-		return hc, g
-	}
-	if outcome != nil {
-		_, g.numPanic = hGuard(func() { g.numcode = drpcerr.Code(outcome) })
-	}
-	g.status = rec.Code
-	g.ctype = rec.Header().Get("Content-Type")
-	g.body = rec.Body.Bytes()
-	hLift(r, g)
-	return hc, g
+	return hc, g, h, req
 }
 
 // hLift turns the recorded body into frames/trailers (grpc-web) or the JSON error (twirp failure).
@@ -878,8 +895,8 @@ func hCompare(hc *hCase, g *hGot) (field, want, got string) {
 	if !g.called {
 		return "handler", "called", "not called"
 	}
-	if w.Rpc == "path" && g.rpc != hPath {
-		return "rpc", hPath, g.rpc
+	if w.Rpc == "path" && g.rpc != hc.path {
+		return "rpc", hc.path, g.rpc
 	}
 	wmd := map[string]string{}
 	for _, p := range w.Md {
@@ -1119,10 +1136,13 @@ type httpRunner struct {
 	classes  map[string]int
 	perMode  map[string]int
 	bigCases int
+	pool     []*httpRec // resp-mode cases, one per content type x script x outcome kind, for the concurrent pairs
+	poolSeen map[string]bool
+	pairs    int
 }
 
 func newHTTPRunner(c *vf.Ctx, full bool) *httpRunner {
-	return &httpRunner{c: c, rng: rand.New(rand.NewSource(c.Seed)), full: full, classes: map[string]int{}, perMode: map[string]int{}}
+	return &httpRunner{c: c, rng: rand.New(rand.NewSource(c.Seed)), full: full, classes: map[string]int{}, perMode: map[string]int{}, poolSeen: map[string]bool{}}
 }
 
 func (hr *httpRunner) report(sig string, r *httpRec, extra map[string]any) {
@@ -1180,6 +1200,13 @@ func (hr *httpRunner) one(raw []byte, r *httpRec) {
 	if !hr.full {
 		return
 	}
+	if r.Mode == "resp" {
+		k := fmt.Sprintf("%s|%s|%s", r.Ct, r.Prog, r.Out.K)
+		if !hr.poolSeen[k] && r.Req.Defect == "none" {
+			hr.poolSeen[k] = true
+			hr.pool = append(hr.pool, r)
+		}
+	}
 	if field, want, got := hCompare(hc, g); field != "" {
 		hr.report(fmt.Sprintf("http %s/%s: %s: want %s, got %s", r.P.Fam, r.Mode, field, want, got), r,
 			map[string]any{"field": field, "want": want, "got": got, "status": g.status, "content_type": g.ctype, "body_len": len(g.body), "json_encoding_with_methods": hc.jsonEnc})
@@ -1191,6 +1218,130 @@ func (hr *httpRunner) one(raw []byte, r *httpRec) {
 	case r.Mode == "size" && r.Want.Recv == "reject" && r.Req.Defect == "none" && r.Prog == "unary":
 		c.Sample(map[string]any{"case": r})
 	}
+}
+
+// ---------------------------------------------------------------------------------------------
+// two requests in flight on one gateway: what each client receives is what Http.tla demands for that
+// request alone (a request's behaviour in the model has no state outside itself)
+// ---------------------------------------------------------------------------------------------
+
+// hRoute dispatches by rpc path to the scripted handler of each request.
+type hRoute struct{ m map[string]*hHandler }
+
+func (x hRoute) HandleRPC(st drpc.Stream, rpc string) error {
+	if h := x.m[rpc]; h != nil {
+		return h.HandleRPC(st, rpc)
+	}
+	return errors.New("unrouted rpc " + rpc)
+}
+
+// slowWriter is the ResponseWriter of a slow client: its first Write parks (the bytes handed to it are still the
+// gateway's: a Write may read its argument for as long as it runs), every Write copies only when it goes on.
+type slowWriter struct {
+	hdr     http.Header
+	code    int
+	body    bytes.Buffer
+	parked  chan struct{}
+	release chan struct{}
+	once    sync.Once
+}
+
+func (w *slowWriter) Header() http.Header { return w.hdr }
+func (w *slowWriter) WriteHeader(c int) {
+	if w.code == 0 {
+		w.code = c
+	}
+}
+func (w *slowWriter) Write(p []byte) (int, error) {
+	w.once.Do(func() { close(w.parked) })
+	<-w.release
+	if w.code == 0 {
+		w.code = 200
+	}
+	return w.body.Write(p)
+}
+func (w *slowWriter) Flush() {}
+
+// pair serves a (slow client) and b (ordinary client) on one gateway, b completely while a's first Write is parked.
+func (hr *httpRunner) pair(a, b *httpRec) {
+	c := hr.c
+	hca, ga, ha, reqa := hPrepare(a, hr.rng, "/svc.Service/A")
+	hcb, gb, hb, reqb := hPrepare(b, hr.rng, "/svc.Service/B")
+	if ga.harness != "" || gb.harness != "" {
+		return
+	}
+	gw := drpchttp.New(hRoute{m: map[string]*hHandler{"/svc.Service/A": ha, "/svc.Service/B": hb}})
+	sw := &slowWriter{hdr: http.Header{}, parked: make(chan struct{}), release: make(chan struct{})}
+	done := make(chan struct{})
+	go func() {
+		defer close(done)
+		ga.panicFn, ga.panicTx = hGuard(func() { gw.ServeHTTP(sw, reqa) })
+	}()
+	select {
+	case <-sw.parked:
+	case <-done: // a wrote nothing
+	case <-time.After(20 * time.Second):
+		c.Warn("pair: the first request neither writes nor returns")
+		close(sw.release)
+		return
+	}
+	rec := httptest.NewRecorder()
+	gb.panicFn, gb.panicTx = hGuard(func() { gw.ServeHTTP(rec, reqb) })
+	close(sw.release)
+	select {
+	case <-done:
+	case <-time.After(20 * time.Second):
+		c.Warn("pair: the slow request does not finish after its client went on")
+		return
+	}
+	hCollect(a, ga, ha, sw.code, sw.hdr, sw.body.Bytes())
+	hCollect(b, gb, hb, rec.Code, rec.Header(), rec.Body.Bytes())
+	hr.pairs++
+	c.Eval(fmt.Sprintf("pair:%s|%s|%s|%v|%s|%s|%s|%v", a.Ct, a.Prog, a.Out.K, a.Sizes, b.Ct, b.Prog, b.Out.K, b.Sizes))
+	for _, x := range []struct {
+		who string
+		hc  *hCase
+		g   *hGot
+		r   *httpRec
+	}{{"the slow client's request", hca, ga, a}, {"the request served meanwhile", hcb, gb, b}} {
+		if x.g.panicTx != "" {
+			hr.report(fmt.Sprintf("http panic in %s: %s", x.g.panicFn, x.g.panicTx), x.r, map[string]any{"concurrent_with": b})
+			continue
+		}
+		if field, want, got := hCompare(x.hc, x.g); field != "" {
+			hr.report(fmt.Sprintf("http %s, two requests in flight on one gateway: %s gets a different response than alone: %s", x.r.P.Fam, x.who, field), x.r,
+				map[string]any{"field": field, "want": want, "got": got, "slow_request": a, "other_request": b})
+		}
+	}
+}
+
+// pairs picks requests with at least one response byte from the resp mode and runs ordered pairs of them.
+func (hr *httpRunner) runPairs() {
+	pool := hr.pool
+	if len(pool) < 2 {
+		return
+	}
+	n := 600
+	if !hr.c.Quick() {
+		n = 6000
+	}
+	if all := len(pool) * (len(pool) - 1); all <= n {
+		for i := range pool {
+			for j := range pool {
+				if i != j {
+					hr.pair(pool[i], pool[j])
+				}
+			}
+		}
+	} else {
+		for k := 0; k < n; k++ {
+			i, j := hr.rng.Intn(len(pool)), hr.rng.Intn(len(pool))
+			if i != j {
+				hr.pair(pool[i], pool[j])
+			}
+		}
+	}
+	hr.c.Cov["concurrent_pairs"] = hr.pairs
 }
 
 func (hr *httpRunner) finish() {
@@ -1215,8 +1366,9 @@ func C14(c *vf.Ctx) {
 	for _, mode := range []string{"resp", "chain", "size", "meta"} {
 		httpTLC(c, mode, hr.one)
 	}
+	hr.runPairs()
 	hr.finish()
-	c.Cov["rule"] = "TLC enumerates Http.tla (one behaviour per request: Recv, Send*, Return, Finish) in four modes: resp = content types x handler script {unary, stream of 0/1/3} x outcome {ok, one-node error x code class x message class}; chain = error chains (code kind, Cause/Unwrap/both, nil/self/2-cycle ends, typed nil, wrapper depth around the bound 100) x {Twirp, grpc-web}; size = content types x request class (sizes around 4 MiB, framing defects, base64 junk) and response size sequences around 4 MiB; meta = every X-Drpc-Metadata string over the alphabet up to MaxHdr plus all two-entry lists over a fixed entry set. Each terminal state is one case, distinct by its full record; each is executed on the real drpchttp.New(handler) and compared field by field (rpc, metadata, received message, status, content type, frames/body, trailers, JSON error, drpcerr.Code)."
+	c.Cov["rule"] = "TLC enumerates Http.tla (one behaviour per request: Recv, Send*, Return, Finish) in four modes: resp = content types x handler script {unary, stream of 0/1/3} x outcome {ok, one-node error x code class x message class}; chain = error chains (code kind, Cause/Unwrap/both, nil/self/2-cycle ends, typed nil, wrapper depth around the bound 100) x {Twirp, grpc-web}; size = content types x request class (sizes around 4 MiB, framing defects, base64 junk) and response size sequences around 4 MiB; meta = every X-Drpc-Metadata string over the alphabet up to MaxHdr plus all two-entry lists over a fixed entry set. Each terminal state is one case, distinct by its full record; each is executed on the real drpchttp.New(handler) and compared field by field (rpc, metadata, received message, status, content type, frames/body, trailers, JSON error, drpcerr.Code). Requests in the model have no state outside themselves, so the same demanded response holds for a request served while another one is in flight on the same gateway: ordered pairs of resp-mode cases (one per content type x script x outcome kind) are served on one drpchttp handler, the first through a slow client whose first Write is parked while the second request is served completely; both responses are compared with what the model demands for each alone."
 	c.Cov["exhaustive"] = false
 	c.Cov["exhaustive_note"] = "exhaustive over the stated class product; payload bytes, error texts and numeric codes are class representatives"
 }
